@@ -211,6 +211,16 @@ impl Hooks for EngineHooks {
         }
         let n = with_st(|st| st.actors.len());
         spawn_kind(&format!("blocking{}", n), ActorKind::Blocking, move || f());
+        // the blocking pool may run (and finish) the closure before the
+        // submitter executes its next instruction
+        if can_yield() {
+            with_st(|st| {
+                if let Some(c) = st.current {
+                    st.actors[c].last = "spawn_blocking";
+                }
+            });
+            let _ = suspend(Yield::Pause);
+        }
     }
 }
 
